@@ -1,6 +1,6 @@
 (* Model.v — the executable entry points of the implementation model: the fixed user-function
    library (implemented a second time in Go by the runner) and one-call wrappers. *)
-From JP Require Export Json Tree Eval Peg Grammar Text Actions WF Spec.
+From JP Require Export Json Tree Eval Peg Grammar Text Actions WF Spec AccDefs.
 Open Scope string_scope.
 
 (* ---------- the user-function library of the harness ---------- *)
